@@ -229,6 +229,10 @@ def cli_case(ctx, k):
         ren = ["--rename", "{id} {rc}"] if rename else []
         out = lambda t: ["-o", f"{t}1.fq"] + (["-p", f"{t}2.fq"] if paired else [])
         base = adargs + opts + post
+        side_files = (not paired) and rng.random() < 0.6
+        side = (lambda t: ["--info-file", f"{t}.info", "--rest-file", f"{t}.rest"]) if side_files else (lambda t: [])
+        out0 = out
+        out = lambda t: out0(t) + side(t)
         argv_r = base + ["--revcomp", "--json", "rep.json"] + ren + out("r") + inputs
         run_r = climon.run(d, argv_r, tag="rev", trace=False)
         case = climon.case_record(argv_r, d, inputs)
@@ -301,6 +305,45 @@ def cli_case(ctx, k):
                                   f"run wrote {ref[1]!r}; scores fwd {sf} ({nf} m) rc {sc} ({nc} m); argv={argv_r}", case, klass=str(use))
                 elif rr[0] != exp_name:
                     ctx.violation("cli-name", f"read {key}: name {rr[0]!r}, expected {exp_name!r}; argv={argv_r}", case)
+        if side_files:
+            # later outputs use the chosen orientation as well: the info and rest files of the --revcomp run must show, read by read,
+            # what the run on the selected orientation shows (apart from the name suffix and the reverse-complement flag column)
+            def by_read(path, keycol):
+                try:
+                    with open(os.path.join(d, path)) as f:
+                        lines = f.read().split("\n")
+                except OSError:
+                    return None
+                m = {}
+                for ln in lines:
+                    if ln:
+                        cols = ln.split("\t") if keycol == 0 else ln.split(" ", 1)
+                        nm = cols[0] if keycol == 0 else (cols[1] if len(cols) > 1 else "")
+                        m.setdefault(fastx.rid(nm), []).append(cols)
+                return m
+            IR, IF, IC = by_read("r.info", 0), by_read("f.info", 0), by_read("c.info", 0)
+            RR, RF, RC = by_read("r.rest", 1), by_read("f.rest", 1), by_read("c.rest", 1)
+            if None in (IR, IF, IC, RR, RF, RC):
+                ctx.violation("cli-side-output", f"info/rest file missing; argv={argv_r}", case)
+            else:
+                for name, s_, q_ in recs1:
+                    key = fastx.rid(name)
+                    if key not in gf or key not in gc:
+                        continue
+                    sf, nf = score(gf[key])
+                    sc, nc = score(gc[key])
+                    use = nc > 0 and sc > sf
+                    got, ref = IR.get(key, []), (IC if use else IF).get(key, [])
+                    strip = lambda rows: [r[1:11] if len(r) > 4 else r[1:4] for r in rows]
+                    ctx.count("info_rows_compared", len(got))
+                    if strip(got) != strip(ref):
+                        ctx.violation("cli-info-orientation", f"read {key}: info rows with --revcomp {strip(got)} differ from those of the "
+                                      f"{'reverse-complement' if use else 'forward'} run {strip(ref)}; scores fwd {sf} rc {sc}; argv={argv_r}", case, klass="info" + str(use))
+                    elif any(len(r) > 4 and r[-1] != ("1" if use else "0") for r in got):
+                        ctx.violation("cli-info-flag", f"read {key}: reverse-complement flag column {[r[-1] for r in got]}, rule says {use}; argv={argv_r}", case)
+                    g2, r2 = [c[0] for c in RR.get(key, [])], [c[0] for c in (RC if use else RF).get(key, [])]
+                    if g2 != r2:
+                        ctx.violation("cli-rest-orientation", f"read {key}: rest file with --revcomp has {g2}, the selected orientation's run {r2}; argv={argv_r}", case)
         rep = run_r.json_report()["read_counts"]["reverse_complemented"]
         if rep != n_rc:
             ctx.violation("cli-rc-count", f"read_counts.reverse_complemented={rep}, {n_rc} reads selected by the rule; argv={argv_r}", case)
